@@ -57,7 +57,7 @@ def object_map():
 
 def object_type_of(cls):
     for k, v in object_map().items():
-        if v is cls or (isinstance(cls, type) and issubclass(cls, v)):
+        if v is not None and (v is cls or (isinstance(cls, type) and issubclass(cls, v))):
             return k
     return None
 
@@ -126,7 +126,7 @@ def new_managed(I, cls, label="mo", attached=True):
     ot = object_type_of(cls)
     if ot is not None:
         o.fields['_object_type'] = ot
-    I.path.event('db.load', id(o), cls.__name__)
+    I.path.event('db.load', id(o), cls.__name__, o)
     return o
 
 
@@ -307,12 +307,15 @@ def make_engine(I, label="self", version=None, identity=True):
     e.fields['_data_session'] = make_session(I)
     e.fields['_object_map'] = object_map()
     versions = [(1, 0), (1, 1), (1, 2), (1, 3), (1, 4), (2, 0)]
-    if version is None:
-        version = versions[P.choose(len(versions), "protocol-version")]
-    e.fields['_protocol_version'] = contents.ProtocolVersion(*version)
-    e.fields['_attribute_policy'] = server_policy.AttributePolicy(contents.ProtocolVersion(*version))
+
+    def set_version(I2, obj, version=version):
+        # the protocol version (and the attribute rules derived from it) is chosen when first used
+        v = version if version is not None else versions[I2.path.choose(len(versions), "protocol-version")]
+        obj.fields['_protocol_version'] = contents.ProtocolVersion(*v)
+        obj.fields['_attribute_policy'] = server_policy.AttributePolicy(contents.ProtocolVersion(*v))
+    e.meta['lazy'] = {'_protocol_version': set_version, '_attribute_policy': set_version}
     user = make_symbolic(I, 'str', label + ".user")
-    groups = make_symbolic(I, ('oneof', 'none', ('slist', 'nonempty_str')), label + ".groups")
+    groups = make_symbolic(I, ('lazyopt', ('slist', 'nonempty_str')), label + ".groups")
     e.fields['_client_identity'] = [user, groups]
     e.fields['_id_placeholder'] = make_symbolic(I, ('lazyopt', 'str'), label + "._id_placeholder")
     e.fields['is_asynchronous'] = False
